@@ -259,7 +259,17 @@ def _store(b, op, aux):
     if k == 'coins':
         return b.store_coins(op['v'])
     if k == 'bit':
-        return b.store_bit(op['v'] if op.get('form', 'int') == 'int' else str(op['v']))
+        form = op.get('form', 'int')
+        if form == 'bit_int':
+            return b.store_bit_int(op['v'])
+        if form == 'bool':
+            return b.store_bit(bool(op['v']))
+        if form == 'tvm':                       # store_bit(TvmBitarray): its first bit
+            from pytoniq_core.boc.tvm_bitarray import TvmBitarray
+            ba = TvmBitarray(1023)
+            ba.extend(str(op['v']) + '01')
+            return b.store_bit(ba)
+        return b.store_bit(op['v'] if form == 'int' else str(op['v']))
     if k == 'bool':
         return b.store_bool(bool(op['v']))
     if k == 'bits':
@@ -269,6 +279,11 @@ def _store(b, op, aux):
     if k == 'string':
         return b.store_string(op['v'])
     if k == 'snake':
+        how = op.get('as', 'bytes')
+        if how == 'string':
+            return b.store_snake_string(bytes.fromhex(op['v']).decode('utf-8'))
+        if how == 'string-prefix':              # need_prefix=True puts one zero byte in front (TEP-64 snake tag)
+            return b.store_snake_string(bytes.fromhex(op['v'])[1:].decode('utf-8'), True)
         return b.store_snake_bytes(bytes.fromhex(op['v']))
     if k == 'maybe_ref':
         return b.store_maybe_ref(aux)
@@ -349,6 +364,8 @@ def _accessors(s, op, aux):
         return (lambda: s.preload_string(n)), (lambda: s.load_string(n)), (lambda x: x == op['v'])
     if k == 'snake':
         data = bytes.fromhex(op['v'])
+        if op.get('as', 'bytes') != 'bytes':
+            return None, s.load_snake_string, (lambda x: isinstance(x, str) and x == data.decode('utf-8'))
         return None, s.load_snake_bytes, (lambda x: isinstance(x, (bytes, bytearray)) and bytes(x) == data)
     if k in ('maybe_ref', 'dict'):
         if op['v'] is None:
@@ -360,7 +377,8 @@ def _accessors(s, op, aux):
                (lambda: s.load_dict(op['kl'], value_deserializer=_hm_value_de)), (lambda x: x == exp)
     if k == 'slice':
         n, r = len(op['v']), op['r']
-        return None, (lambda: (s.load_bits(n), [s.load_ref() for _ in range(r)])), \
+        # peek: preload_bits and preload_ref(i) return what the reads below return and consume nothing
+        return (lambda: (s.preload_bits(n), [s.preload_ref(i) for i in range(r)])), (lambda: (s.load_bits(n), [s.load_ref() for _ in range(r)])), \
             (lambda x: _to01(x[0]) == op['v'] and len(x[1]) == r and all(_cell_same(a, c) for a, c in zip(x[1], aux[1])))
     if k == 'addr_none':
         return s.preload_address, s.load_address, (lambda x: x is None)
@@ -653,11 +671,14 @@ def classify(case):
             n, avail = len(op['v']) // 2, (1023 - used) // 8
             cells = 1 if n <= avail else 1 + (n - avail + 126) // 127
             labels.append('snake:' + ('len=0' if n == 0 else '1-cell' if cells == 1 else '2-cells' if cells == 2 else '>=3-cells'))
+            labels.append('snake:as=' + op.get('as', 'bytes'))
             refs_used += 1 if cells > 1 else 0
             if avail == 0 and n:
                 labels.append('snake:root-full')
         elif k == 'string':
             labels.append('string:' + ('empty-last' if op['v'] == '' else 'ascii' if op['v'].isascii() else 'multibyte'))
+        elif k == 'bit':
+            labels.append('bit:form=' + op.get('form', 'int'))
         elif k in ('maybe_ref', 'dict', 'dict_hm', 'slice'):
             labels.append(kindclass(op))
         elif k == 'refused':
@@ -786,7 +807,7 @@ def _draw_op(draw, kind, left, refs_left):
     if kind == 'coins':
         return {'op': 'coins', 'v': _draw_var_u(draw, _len_class(draw, min(15, (left - 4) // 8)))}
     if kind == 'bit':
-        return {'op': 'bit', 'v': draw(st.integers(0, 1)), 'form': draw(st.sampled_from(['int', 'int', 'str']))}
+        return {'op': 'bit', 'v': draw(st.integers(0, 1)), 'form': draw(st.sampled_from(['int', 'int', 'str', 'bit_int', 'bool', 'tvm']))}
     if kind == 'bool':
         return {'op': 'bool', 'v': draw(st.booleans())}
     if kind == 'bits':
@@ -872,7 +893,18 @@ def _sequence(draw):
             buckets += [(avail + 1, avail + 127), (avail + 128, 1000), (avail + 127, avail + 128)]
             lo, hi = draw(st.sampled_from(buckets))
             ln = draw(st.integers(lo, hi))
-            ops.append({'op': 'snake', 'v': draw(st.binary(min_size=ln, max_size=ln)).hex()})
+            how = draw(st.sampled_from(['bytes', 'bytes', 'string', 'string-prefix']))
+            if how == 'bytes':
+                ops.append({'op': 'snake', 'v': draw(st.binary(min_size=ln, max_size=ln)).hex()})
+            else:                                # a text of exactly ln UTF-8 bytes (the prefix byte included)
+                body = ln - (1 if how == 'string-prefix' and ln else 0)
+                t0 = draw(st.text(alphabet='snake Zé€𝄞', min_size=1, max_size=24))
+                t = _fit_utf8(t0 * (body // len(t0) + 1), body) if body else ''
+                raw = t.encode('utf-8')
+                raw += b'x' * (body - len(raw))
+                if how == 'string-prefix':
+                    raw = b'\x00' + raw
+                ops.append({'op': 'snake', 'v': raw.hex(), 'as': how})
     elif terminal == 'empty_string':
         ops.append({'op': 'string', 'v': ''})
     elif terminal == 'fill' and left > 0:
